@@ -36,6 +36,22 @@ class N:
                                    self.label)
 
 
+def _pairs(t, value):
+    """(target element, value or None) of an assignment, tuples paired
+    element-wise when both sides have the same shape."""
+    if isinstance(t, (ast.Tuple, ast.List)):
+        if isinstance(value, (ast.Tuple, ast.List)) and \
+                len(value.elts) == len(t.elts) and \
+                not any(isinstance(e, ast.Starred) for e in t.elts):
+            for te, ve in zip(t.elts, value.elts):
+                yield from _pairs(te, ve)
+        else:
+            for e in t.elts:
+                yield from _pairs(e, None)
+    else:
+        yield t, value
+
+
 class LoopFrame:
     def __init__(self, cont):
         self.cont = cont
@@ -419,14 +435,179 @@ class CFG:
         return None
 
     def must_pass(self, gates, target, use_exc=True, start=None):
-        """True iff every path entry->target crosses a gate node.  Returns
-        (ok, counterexample_path)."""
+        """True iff every feasible path entry->target crosses a gate node.
+        Returns (ok, counterexample_path).
+
+        Feasibility is decided for one idiom only: a local that is assigned
+        a constant (None / True / False / a literal) and later tested
+        (`if flag:`, `if x is None:`, `if x == 'lit':`).  On a path where the
+        last assignment to such a local is a constant, the test has one
+        outcome; the other branch is not followed.  Everything else is
+        path-insensitive (both branches)."""
         gates = set(gates)
         start = self.entry if start is None else start
         if target in gates:
             return True, None
         p = self.path(start, target, removed=gates, use_exc=use_exc)
+        if p is None:
+            return True, None
+        flags = self._flags()
+        if not flags:
+            return False, p
+        p = self._flag_path(start, target, gates, use_exc, flags)
         return (p is None), p
+
+    # -- constant flags ---------------------------------------------------
+    def _flags(self):
+        """Locals of this function that are assigned a constant somewhere
+        and never touched by global / nonlocal / a nested function."""
+        cached = getattr(self, '_flag_cache', None)
+        if cached is not None:
+            return cached
+        consts, banned = set(), set()
+        root = self.func.node
+        for n in ast.walk(root):
+            if isinstance(n, (ast.Global, ast.Nonlocal)):
+                banned |= set(n.names)
+            if n is not root and isinstance(n, (ast.FunctionDef, ast.Lambda,
+                                                ast.AsyncFunctionDef)):
+                for x in ast.walk(n):
+                    if isinstance(x, ast.Name) and \
+                            isinstance(x.ctx, ast.Store):
+                        banned.add(x.id)
+            if isinstance(n, ast.Assign):
+                for t in n.targets:
+                    for el, v in _pairs(t, n.value):
+                        if isinstance(el, ast.Name) and \
+                                isinstance(v, ast.Constant):
+                            consts.add(el.id)
+        params = set()
+        a = root.args
+        for x in a.posonlyargs + a.args + a.kwonlyargs:
+            params.add(x.arg)
+        self._flag_cache = consts - banned
+        return self._flag_cache
+
+    def _bindings(self, n, flags):
+        """{flag: ('c', value) | None} set when node n completes."""
+        st = n.ast
+        out = {}
+        if n.kind == 'done' and isinstance(st, ast.Assign):
+            for t in st.targets:
+                for el, v in _pairs(t, st.value):
+                    if isinstance(el, ast.Name) and el.id in flags:
+                        out[el.id] = ('c', v.value) \
+                            if isinstance(v, ast.Constant) else None
+                    elif isinstance(el, ast.Starred) and \
+                            isinstance(el.value, ast.Name) and \
+                            el.value.id in flags:
+                        out[el.value.id] = None
+        elif n.kind in ('done', 'loop', 'with', 'handler', 'true') and \
+                st is not None and not isinstance(st, ast.Assign):
+            # any other binding form: value unknown afterwards
+            names = set()
+            if isinstance(st, (ast.AugAssign, ast.AnnAssign)):
+                names |= {x.id for x in ast.walk(st.target)
+                          if isinstance(x, ast.Name)}
+            elif isinstance(st, (ast.For, ast.AsyncFor)):
+                names |= {x.id for x in ast.walk(st.target)
+                          if isinstance(x, ast.Name)}
+            elif isinstance(st, (ast.With, ast.AsyncWith)):
+                for it in st.items:
+                    if it.optional_vars is not None:
+                        names |= {x.id for x in ast.walk(it.optional_vars)
+                                  if isinstance(x, ast.Name)}
+            elif isinstance(st, ast.ExceptHandler) and st.name:
+                names.add(st.name)
+            elif isinstance(st, ast.Delete):
+                names |= {x.id for t in st.targets for x in ast.walk(t)
+                          if isinstance(x, ast.Name)}
+            elif isinstance(st, (ast.Import, ast.ImportFrom)):
+                names |= {(a.asname or a.name).split('.')[0]
+                          for a in st.names}
+            for x in ast.walk(st) if not isinstance(
+                    st, (ast.For, ast.AsyncFor, ast.With, ast.AsyncWith,
+                         ast.ExceptHandler, ast.If, ast.While,
+                         ast.Try)) else ():
+                if isinstance(x, ast.NamedExpr):
+                    names.add(x.target.id)
+            for v in names & flags:
+                out[v] = None
+        return out
+
+    @staticmethod
+    def _decide(atom, env):
+        """Outcome of a test atom on a path where env holds the constants
+        last assigned to flags; None if undecided."""
+        if isinstance(atom, ast.Name) and atom.id in env:
+            return bool(env[atom.id][1])
+        if isinstance(atom, ast.Compare) and len(atom.ops) == 1 and \
+                isinstance(atom.left, ast.Name) and atom.left.id in env and \
+                isinstance(atom.comparators[0], ast.Constant):
+            val = env[atom.left.id][1]
+            lit = atom.comparators[0].value
+            op = atom.ops[0]
+            if isinstance(op, ast.Is):
+                return (val is lit) if lit is None or isinstance(
+                    lit, bool) else None
+            if isinstance(op, ast.IsNot):
+                return (val is not lit) if lit is None or isinstance(
+                    lit, bool) else None
+            if isinstance(op, ast.Eq):
+                return val == lit
+            if isinstance(op, ast.NotEq):
+                return val != lit
+        return None
+
+    def _flag_path(self, start, target, gates, use_exc, flags):
+        init = (start, ())
+        prev = {init: None}
+        dq = deque([init])
+        limit = 200000
+        while dq:
+            state = dq.popleft()
+            a, envt = state
+            if a == target:
+                out = []
+                while state is not None:
+                    out.append(state[0])
+                    state = prev[state]
+                return list(reversed(out))
+            limit -= 1
+            if limit < 0:
+                # give up on precision, not on soundness
+                return self.path(start, target, removed=gates,
+                                 use_exc=use_exc)
+            n = self.nodes[a]
+            env = dict(envt)
+            upd = self._bindings(n, flags)
+            if upd:
+                for k, v in upd.items():
+                    if v is None:
+                        env.pop(k, None)
+                    else:
+                        env[k] = v
+                envt2 = tuple(sorted(env.items(), key=lambda kv: kv[0]))
+            else:
+                envt2 = envt
+            succs = self.succ[a]
+            if n.kind == 'test':
+                d = self._decide(n.ast, env)
+                if d is not None:
+                    keep = set(self.branch(n, d))
+                    succs = [b for b in succs if b in keep or
+                             (a, b) in self.exc_edges]
+            for b in succs:
+                if b in gates:
+                    continue
+                if not use_exc and (a, b) in self.exc_edges:
+                    continue
+                s2 = (b, envt2)
+                if s2 in prev:
+                    continue
+                prev[s2] = state
+                dq.append(s2)
+        return None
 
     def is_reachable(self, target, use_exc=True):
         return target in self.reachable(use_exc=use_exc)
